@@ -1731,6 +1731,11 @@ func runL2History(g *gen, prof l2profile, nops int, stats map[string]int) (strin
 				// (descending scans of multi-level trees may omit rows, finding F-C06-2: a LIMIT
 				// would make the omission impossible to tell from a wrong row)
 				op.limit = 1 + g.r.Intn(3)
+				if prof.faults {
+					// (no LIMIT in fault histories: a row resurrected after a failed retirement — finding
+					//  F-C09-1 — pushes expected rows out of the window; LIMIT is the single profile's subject)
+					op.limit = 0
+				}
 			}
 			if nc >= 0 && g.r.Intn(10) == 0 && len(op.cons) > 0 {
 				// a comparison of the key with NULL: never true, no row, no failure
